@@ -31,11 +31,19 @@ pub fn positions(rest: &[String]) -> i32 {
         let res = std::panic::catch_unwind(|| {
             let g = proj::game_from_fields(r);
             let mvs: Vec<i64> = g.moves().iter().map(|m| proj::pack_move(*m)).collect();
-            (g.to_fen(), mvs, g.is_king_in_check())
+            (g.to_fen(), mvs, g.is_king_in_check(), g.is_stalemate_by_insufficient_material())
         });
         match res {
             Err(_) => mism.push(json!({"fam": fam, "what": "panic", "pos": r})),
-            Ok((fen, mvs, chk)) => {
+            Ok((fen, mvs, chk, insuf)) => {
+                if let Some(ipv) = r.get("ipv").and_then(|x| x.as_str()) {
+                    if (ipv == "T" && !insuf) || (ipv == "F" && insuf) {
+                        mism.push(json!({"fam": fam, "what": "material", "fen": fen, "engine": insuf, "spec": ipv}));
+                    }
+                    if r["icv"].as_bool() != Some(insuf) {
+                        mism.push(json!({"fam": fam, "what": "material-cv", "fen": fen, "engine": insuf, "spec": r["icv"]}));
+                    }
+                }
                 let fresh = distinct.insert(fen.clone());
                 let want: HashSet<i64> = r["mvs"].as_array().unwrap().iter().map(|x| x.as_i64().unwrap()).collect();
                 let got: HashSet<i64> = mvs.iter().copied().collect();
@@ -63,5 +71,98 @@ pub fn positions(rest: &[String]) -> i32 {
     let out = json!({"n": n, "distinct": distinct.len(), "nontrivial": nontrivial, "families": fams,
         "mismatches": mism, "samples": samples});
     println!("{}", out);
+    0
+}
+
+/// `replay-game <gen.ndjson>`: C02/C03/C15 — TLC-chosen behaviours of ChessGame replayed through
+/// make_move / make_null_move / undo_move / undo_null_move; projection compared after every step.
+pub fn game(rest: &[String]) -> i32 {
+    use crate::chess::zobrist;
+    use crate::engine::eval::IncrementalEvalFields;
+    let rows = lines(&rest[0]);
+    let mut mism = Vec::new();
+    let mut steps_total = 0u64;
+    let mut ops: std::collections::BTreeMap<String, u64> = Default::default();
+    let mut distinct: HashSet<String> = HashSet::new();
+    let mut special = 0u64;
+    let mut samples = Vec::new();
+    for (gi, row) in rows.iter().enumerate() {
+        let steps = row["steps"].as_array().unwrap();
+        let mut game = Game::new();
+        let mut opseq: Vec<String> = Vec::new();
+        for (si, st) in steps.iter().enumerate() {
+            steps_total += 1;
+            let op = st["op"].as_str().unwrap();
+            *ops.entry(op.to_string()).or_default() += 1;
+            let mv = st["mv"].as_i64().unwrap();
+            opseq.push(if op == "make" { st["uci"].as_str().unwrap().to_string() } else { op.to_string() });
+            let res = std::panic::catch_unwind(std::panic::AssertUnwindSafe(|| match op {
+                "load" => game = proj::game_from_fields(st),
+                "make" => game.make_move(proj::unpack_move(mv)),
+                "null" => game.make_null_move(),
+                "undo" => game.undo_move(),
+                "undonull" => game.undo_null_move(),
+                _ => panic!("op"),
+            }));
+            if res.is_err() {
+                mism.push(json!({"game": gi, "step": si, "what": "panic", "ops": opseq, "root": steps[0]["fen"]}));
+                break;
+            }
+            if op == "make" && (mv >= 32768 * 2 || (mv / 4096) % 8 != 0) {
+                special += 1;
+            }
+            let got = proj::position(&game);
+            let mut diffs = Vec::new();
+            for k in ["b", "stm", "cr", "ep", "hmc", "pl"] {
+                if op == "null" && (k == "ep" || k == "hmc" || k == "pl") {
+                    continue; // PropertyView of a null move fixes placement, side and rights only
+                }
+                if got[k] != st[k] {
+                    diffs.push(k);
+                }
+            }
+            if op != "null" && json!(game.to_fen()) != st["fen"] {
+                diffs.push("fen");
+            }
+            if json!(game.history.len()) != st["hl"] {
+                diffs.push("hl");
+            }
+            // the three views against the mailbox the spec expects
+            let full = proj::full(&game);
+            let b = st["b"].as_array().unwrap();
+            let mut kinds = vec![Vec::new(); 6];
+            let mut cols = vec![Vec::new(); 2];
+            for (s, c) in b.iter().enumerate() {
+                let c = c.as_i64().unwrap();
+                if c != 0 {
+                    kinds[((c - 1) % 6) as usize].push(s as i64);
+                    cols[((c - 1) / 6) as usize].push(s as i64);
+                }
+            }
+            if full["bk"] != json!(kinds) || full["bc"] != json!(cols) {
+                diffs.push("views");
+            }
+            if full["key"] != full["keys"] {
+                diffs.push("key");
+            }
+            if (&full["ph"], &full["mg"], &full["eg"]) != (&full["phs"], &full["mgs"], &full["egs"]) {
+                diffs.push("acc");
+            }
+            distinct.insert(game.to_fen());
+            if !diffs.is_empty() {
+                mism.push(json!({"game": gi, "step": si, "what": "state", "fields": diffs, "op": op,
+                    "ops": opseq, "root": steps[0]["fen"], "want_fen": st["fen"], "got_fen": game.to_fen()}));
+                break;
+            }
+        }
+        if samples.len() < 2 {
+            samples.push(json!({"root": steps[0]["fen"], "ops": opseq.iter().take(14).collect::<Vec<_>>()}));
+        }
+    }
+    println!(
+        "{}",
+        json!({"games": rows.len(), "steps": steps_total, "ops": ops, "distinct": distinct.len(),
+            "special_moves": special, "mismatches": mism, "samples": samples})
+    );
     0
 }
